@@ -498,15 +498,71 @@ Proof.
   destruct (bread b2 512) as [[? e3] b3]. destruct e3; reflexivity.
 Qed.
 
-Lemma mc_loop_returns fuel udp tokens b :
-  b_err b <> EBufFull -> (pot b + 3 <= fuel)%nat -> fst (mc_loop fuel udp tokens b) = Returned.
+(* a Read through bufio that neither fails nor makes progress needs the (0, nil) wrapper *)
+Lemma bread_progress b n d b' :
+  (0 < n)%nat -> c_term (b_c b) <> TZero -> bread b n = (d, ENone, b') -> (pot b' < pot b)%nat.
 Proof.
-  revert tokens b; induction fuel as [|f IH]; intros tokens b Hnf Hp; [lia|]. cbn [mc_loop].
+  intros Hn Ht; unfold bread, pot.
+  assert (forall m d0 e0 c', (0 < m)%nat -> cread (b_c b) m = (d0, e0, c') -> e0 = ENone ->
+                             (weight c' < weight (b_c b))%nat) as Hcr.
+  { intros m d0 e0 c' Hm E He. destruct (c_segs (b_c b)) eqn:Es.
+    - destruct (cread_drained _ _ _ _ _ Es E) as (_ & _ & Hx). rewrite Hx in He.
+      destruct (c_term (b_c b)); congruence.
+    - apply (cread_progress (b_c b) m d0 e0 c'); auto; congruence. }
+  destruct (b_buf b) as [|x buf] eqn:Eb.
+  - destruct (b_err b) eqn:Ee; try (intros H; inversion H; fail).
+    destruct (BUFSZ <=? n)%nat.
+    + destruct (cread (b_c b) n) as [[d0 e0] c'] eqn:E. intros H; inversion H; subst.
+      specialize (Hcr n d ENone c' Hn E eq_refl). cbn [b_buf b_c length]; lia.
+    + destruct (cread (b_c b) BUFSZ) as [[d0 e0] c'] eqn:E.
+      pose proof (cread_pot _ _ _ _ _ E) as Hp. pose proof BUFSZ_pos.
+      destruct d0 as [|y d0]; intros H'; inversion H'; subst; cbn [b_buf b_c length] in *.
+      * specialize (Hcr BUFSZ [] ENone c' ltac:(lia) E eq_refl). lia.
+      * rewrite skipn_length; cbn [length]. lia.
+  - intros H; inversion H; subst; cbn [b_buf b_c]. rewrite skipn_length; cbn [length]. lia.
+Qed.
+
+Lemma read_full_spec fuel want got b :
+  b_err b <> EBufFull -> c_term (b_c b) <> TZero -> (pot b + 1 <= fuel)%nat ->
+  exists n e b', read_full fuel want got b = Some (n, e, b') /\
+    (pot b' <= pot b)%nat /\ b_err b' <> EBufFull /\ c_term (b_c b') = c_term (b_c b).
+Proof.
+  revert got b; induction fuel as [|f IH]; intros got b Hnf Ht Hp; [lia|].
+  cbn [read_full]. destruct (want <=? got)%nat eqn:Ew.
+  - eexists _, _, _; split; [reflexivity|]. repeat split; auto.
+  - apply Nat.leb_gt in Ew.
+    destruct (bread b (want - got)) as [[d e] b1] eqn:E.
+    destruct (bread_spec _ _ _ _ _ Hnf E) as (B1 & B2 & B3).
+    destruct e; try (eexists _, _, _; split; [reflexivity|]; repeat split; auto).
+    assert (pot b1 < pot b)%nat by (apply (bread_progress b (want - got) d b1); auto; lia).
+    destruct (IH (got + length d)%nat b1) as (n & e & b2 & H2 & R1 & R2 & R3); [exact B2|congruence|lia|].
+    exists n, e, b2; split; [exact H2|]. split; [lia|]. split; [exact R2|congruence].
+Qed.
+
+(* ... and behind the drained datagram wrapper io.ReadFull over bufio never ends *)
+Lemma read_full_drained_zero fuel want got b :
+  b_buf b = [] -> b_err b = ENone -> c_segs (b_c b) = [] -> c_term (b_c b) = TZero ->
+  (got < want)%nat -> read_full fuel want got b = None.
+Proof.
+  revert got b; induction fuel as [|f IH]; intros got b Hb He Hs Ht Hg; cbn [read_full].
+  - replace (want <=? got)%nat with false by (symmetry; apply Nat.leb_gt; lia). reflexivity.
+  - replace (want <=? got)%nat with false by (symmetry; apply Nat.leb_gt; lia).
+    unfold bread; rewrite Hb, He. destruct (BUFSZ <=? want - got)%nat.
+    + unfold cread; rewrite Hs, Ht. cbn [length]. rewrite Nat.add_0_r. apply IH; auto.
+    + unfold cread; rewrite Hs, Ht. cbn [length]. rewrite Nat.add_0_r. apply IH; auto.
+Qed.
+
+Lemma mc_loop_returns fuel udp tokens b :
+  b_err b <> EBufFull -> c_term (b_c b) <> TZero -> (pot b + 3 <= fuel)%nat ->
+  fst (mc_loop fuel udp tokens b) = Returned.
+Proof.
+  revert tokens b; induction fuel as [|f IH]; intros tokens b Hnf Htz Hp; [lia|]. cbn [mc_loop].
   destruct (read_bytes_spec (S f) 10 [] b Hnf Hp) as (line & e & b1 & H & P1 & P2 & P3 & P4 & P5).
   rewrite H. destruct e; try reflexivity; try congruence.
   specialize (P2 eq_refl).
+  assert (c_term (b_c b1) <> TZero) as Htz1 by congruence.
   assert (forall k t, fst (mc_loop f udp t (bwrite b1 k)) = Returned) as Hgo.
-  { intros k t; apply IH; [rewrite bwrite_err; exact P4|rewrite bwrite_pot; lia]. }
+  { intros k t; apply IH; [rewrite bwrite_err; exact P4|rewrite bwrite_term; exact Htz1|rewrite bwrite_pot; lia]. }
   set (cmd := if (2 <=? length line)%nat then firstn (length line - 2) line else line).
   assert (fst
     (let tokens' := if udp then Nat.pred tokens else tokens in
@@ -521,15 +577,17 @@ Proof.
            then (Returned, b1)
            else match atoi (nth 4 parts []) with
                 | Some v =>
-                    let '(d, e, b2) := bread b1 80 in
-                    match e with
-                    | ENone =>
-                        match discard (S f) (v - Z.of_nat (length d)) b2 with
-                        | Some b3 => mc_loop f udp tokens' (bwrite b3 8)
-                        | None => (OutOfFuel, b2)
-                        end
-                    | _ => (Returned, b2)
-                    end
+                    if v <? 0 then (Returned, b1)
+                    else
+                      match read_full (S f) (Z.to_nat (Z.min v 80)) 0 b1 with
+                      | Some (n, e, b2) =>
+                          if negb (is_enone e) && (n =? 0)%nat && (0 <? v) then (Returned, b2)
+                          else match discard (S f) (v - Z.of_nat n + 2) b2 with
+                               | Some b3 => mc_loop f udp tokens' (bwrite b3 8)
+                               | None => (OutOfFuel, b2)
+                               end
+                      | None => (OutOfFuel, b1)
+                      end
                 | None => (Returned, b1)
                 end
          else mc_loop f udp tokens' (bwrite b1 7)) = Returned) as Hbody.
@@ -539,26 +597,27 @@ Proof.
     destruct (is_store _); [|apply Hgo].
     destruct (_ <? 5)%nat; [reflexivity|].
     destruct (atoi _) as [v|]; [|reflexivity].
-    destruct (bread b1 80) as [[d e] b2] eqn:Eb.
-    destruct (bread_spec _ _ _ _ _ P4 Eb) as (B1 & B2 & B3).
-    destruct e; try reflexivity.
-    destruct (discard_spec (S f) (v - Z.of_nat (length d)) b2 B2) as (b3 & Hd & D1 & D2 & D3); [lia|].
-    rewrite Hd. apply IH; [rewrite bwrite_err; exact D2|rewrite bwrite_pot; lia]. }
+    destruct (v <? 0); [reflexivity|].
+    destruct (read_full_spec (S f) (Z.to_nat (Z.min v 80)) 0 b1 P4 Htz1) as (n & e & b2 & Hr & R1 & R2 & R3); [lia|].
+    rewrite Hr.
+    destruct (negb (is_enone e) && (n =? 0)%nat && (0 <? v)); [reflexivity|].
+    destruct (discard_spec (S f) (v - Z.of_nat n + 2) b2 R2) as (b3 & Hd & D1 & D2 & D3); [lia|].
+    rewrite Hd. apply IH; [rewrite bwrite_err; exact D2|rewrite bwrite_term; congruence|rewrite bwrite_pot; lia]. }
   destruct udp; [destruct tokens; [reflexivity|]|]; exact Hbody.
 Qed.
 
 Lemma handle_memcached_returns udp fuel c :
-  (weight c + 3 <= fuel)%nat -> h_out (handle_memcached udp fuel c) = Returned.
+  c_term c <> TZero -> (weight c + 3 <= fuel)%nat -> h_out (handle_memcached udp fuel c) = Returned.
 Proof.
-  intros Hf; unfold handle_memcached.
+  intros Htz Hf; unfold handle_memcached.
   set (b1 := if udp then let '(_, _, b') := bread (new_reader c) 8 in b' else new_reader c).
-  assert (b_err b1 <> EBufFull /\ (pot b1 <= weight c)%nat) as [A1 A2].
+  assert (b_err b1 <> EBufFull /\ (pot b1 <= weight c)%nat /\ c_term (b_c b1) = c_term c) as (A1 & A2 & A3).
   { subst b1; destruct udp.
     - destruct (bread (new_reader c) 8) as [[d e] b'] eqn:E.
       destruct (bread_spec _ _ _ _ _ (new_reader_err c) E) as (B1 & B2 & B3).
       rewrite pot_new_reader in B1; auto.
-    - split; [cbn; congruence|rewrite pot_new_reader; lia]. }
-  pose proof (mc_loop_returns fuel udp 4 b1 A1 ltac:(lia)) as H.
+    - split; [cbn; congruence|split; [rewrite pot_new_reader; lia|reflexivity]]. }
+  pose proof (mc_loop_returns fuel udp 4 b1 A1 ltac:(congruence) ltac:(lia)) as H.
   destruct (mc_loop fuel udp 4 b1) as [o b2]; cbn [fst h_out] in *; exact H.
 Qed.
 
@@ -889,7 +948,7 @@ Lemma fuel_for_ok c : (weight c + 3 <= fuel_for c)%nat /\ (weight c < fuel_for c
 Proof. unfold fuel_for; lia. Qed.
 
 Definition copy_svc (s : svc) : bool := match s with Ntp | Echo => true | _ => false end.
-Definition bufio_svc (s : svc) : bool := match s with Dummy | Tftp | Memcached => true | _ => false end.
+Definition bufio_svc (s : svc) : bool := match s with Dummy | Tftp => true | _ => false end.
 
 Lemma handle_copy_spins s fuel c :
   copy_svc (sc_svc s) = true -> c_term c = TZero ->
@@ -923,11 +982,16 @@ Proof.
   destruct s as [sv u v d]; unfold handle; cbn [sc_svc sc_udp]; destruct sv; cbn [bufio_svc]; try congruence; intros _.
   - apply handle_dummy_returns; exact Hf.
   - apply handle_tftp_returns; exact Hf.
-  - apply handle_memcached_returns; exact Hf.
+Qed.
+
+Lemma handle_memcached_scn_returns s c :
+  sc_svc s = Memcached -> c_term c <> TZero -> h_out (handle s (fuel_for c) c) = Returned.
+Proof.
+  intros Es Ht; unfold handle; rewrite Es. apply handle_memcached_returns; [exact Ht|apply fuel_for_ok].
 Qed.
 
 Definition finding_class (s : scn) (c : conn) : Prop :=
-  (c_term c = TZero /\ (sc_svc s = Ntp \/ sc_svc s = Echo \/ sc_svc s = Adb)) \/
+  (c_term c = TZero /\ (sc_svc s = Ntp \/ sc_svc s = Echo \/ sc_svc s = Adb \/ sc_svc s = Memcached)) \/
   sc_svc s = Ftp \/ sc_svc s = Smtp.
 
 Lemma outside_findings s c :
@@ -938,15 +1002,16 @@ Proof.
   assert (clean_svc (sc_svc s) = true) as Hc by (destruct (sc_svc s); cbn; auto; exfalso; apply Hn; auto).
   split; [|apply handle_clean_res; exact Hc].
   destruct (sc_svc s) eqn:Es; cbn in Hc; try congruence.
-  - assert (c_term c <> TZero) as Ht by (intros Ht; apply Hn; auto).
+  - assert (c_term c <> TZero) as Ht by (intros Ht; apply Hn; auto 8).
     destruct (handle_copy_returns s c) as [-> _]; [rewrite Es; reflexivity|exact Ht|reflexivity].
-  - assert (c_term c <> TZero) as Ht by (intros Ht; apply Hn; auto).
+  - assert (c_term c <> TZero) as Ht by (intros Ht; apply Hn; auto 8).
     destruct (handle_copy_returns s c) as [-> _]; [rewrite Es; reflexivity|exact Ht|reflexivity].
   - rewrite (handle_bufio_returns s c); [reflexivity|rewrite Es; reflexivity].
-  - assert (c_term c <> TZero) as Ht by (intros Ht; apply Hn; auto).
+  - assert (c_term c <> TZero) as Ht by (intros Ht; apply Hn; auto 8).
     unfold handle; rewrite Es. apply handle_adb_ends; [exact Ht|apply fuel_for_ok].
   - rewrite (handle_bufio_returns s c); [reflexivity|rewrite Es; reflexivity].
-  - rewrite (handle_bufio_returns s c); [reflexivity|rewrite Es; reflexivity].
+  - assert (c_term c <> TZero) as Ht by (intros Ht; apply Hn; auto 8).
+    rewrite (handle_memcached_scn_returns s c Es Ht); reflexivity.
 Qed.
 
 Lemma handle_ftp_scn_ends s c :
